@@ -179,6 +179,9 @@ err_t btokSMCmdWrap(octet apdu[], size_t* count, const apdu_cmd_t* cmd,
 	c = derEnc(0, 0x8E, 0, 8);
 	ASSERT(c != SIZE_MAX);
 	cdf_len += c;
+	// длина защищенного поля cdf не представима в Lc*?
+	if (cdf_len > 65535)
+		return ERR_BAD_APDU;
 	// новые длины длин cdf и rdf
 	if (cmd->rdf_len == 0)
 		cdf_len_len = cdf_len < 256 ? 1 : 3, rdf_len_len = 0;
